@@ -16,7 +16,7 @@ N = {"quick": 220, "thorough": 6000}
 BUDGET = {"quick": 240.0, "thorough": 700.0}
 RULE = ("case = (simulation; kept-unary simplification to a sample subset; a leaf edge cut on the left "
         "flank / middle / right flank of the last tree without simplifying; unary nodes re-flagged as "
-        "samples); distinct by topology hash; non-trivial = input has >=2 trees; detectors and the "
+        "samples, some with extra flag bits); distinct by topology hash; non-trivial = input has >=2 trees; detectors and the "
         "methods' accept/reject decisions are compared with a per-tree scan")
 
 
@@ -108,6 +108,13 @@ def case(ctx, i, rec):
         fl = t.nodes.flags
         for u in un:
             fl[u] |= 1
+        if rng.random() < 0.6:
+            # sample nodes may carry further flag bits (tsinfer's historical-sample bit, user bits)
+            bits = np.uint32(int(rng.choice([1 << 19, 1 << 20, (1 << 19) | (1 << 25), 1 << 31])))
+            who = np.array(sorted(un)) if (rng.random() < 0.5 or not un) else np.flatnonzero(fl & 1)
+            if len(who):
+                fl[who] |= bits
+                rec.count("inputs_with_extra_flag_bits_on_samples")
         t.nodes.flags = fl
         ts = t.tree_sequence()
     elif kind == "plain_inferred":
@@ -171,5 +178,5 @@ def case(ctx, i, rec):
 
 def reach(ctx, agg):
     need = {"inputs_with_unary_nonsample": 50, "inputs_without_unary_nonsample": 50, "inputs_with_unary_samples_only": 5,
-            "detector_comparisons": 150, "vg_decisions": 100, "discrete_decisions": 20, "inputs:cut_right": 15}
+            "detector_comparisons": 150, "inputs_with_extra_flag_bits_on_samples": 5, "vg_decisions": 100, "discrete_decisions": 20, "inputs:cut_right": 15}
     return [f"{k} = {agg.cnt.get(k, 0)} < {v}" for k, v in need.items() if agg.cnt.get(k, 0) < v]
